@@ -2,6 +2,7 @@
 (example inputs and committed boards): wherever solve() returns, the reported reward vector must be a fixed point of the
 conditioned game's reward equations up to the threshold, on the states the property names."""
 from .. import oracle as O, run as Rn
+from .. import boards
 from ..inputs import board_games
 from ..repo import P1, P2, PR
 
@@ -46,48 +47,67 @@ def bellman_findings(g, res, prune):
     return None
 
 
+def _items(shard):
+    kind, arg, cpu = shard
+    if kind == "file":
+        return [("%s/%s" % (f, nme), {"file": f, "game": nme}, g) for f, nme, g in board_games(None) if (f, nme) == arg]
+    d = boards.generate(*arg)
+    return [("%s %s" % (boards.label(arg), k), {"generated": list(arg[:4]) + [list(arg[4])], "game": k}, d[k]) for k in sorted(d)]
+
+
 def _work(shard):
-    idx, limit, cpu = shard
-    fname, name, g = board_games(limit)[idx]
+    cpu = shard[2]
     out = {"n": 0, "judged": 0, "violations": []}
-    for prune in (True, False):
-        o = Rn.solve(g, prune, cpu_s=cpu, confirm=False)
-        out["n"] += 1
-        if o.kind != "ok":
-            continue
-        out["judged"] += 1
-        r = bellman_findings(g, o.result, prune)
-        if r:
-            out["violations"].append({"kind": "board", "klass": r[0], "input": {"file": fname, "game": name},
-                                      "config": {"prune": prune, "cpu_s": cpu}, "observed": repr(r[2]), "expected": None,
-                                      "explanation": "%s/%s prune=%s: reported reward of state %d is %r but the conditioned Bellman step gives %r"
-                                                     % (fname, name, prune, r[1], r[2][0], r[2][1])})
+    for lab, inp, g in _items(shard):
+        for prune in (True, False):
+            o = Rn.solve(g, prune, cpu_s=cpu, confirm=False)
+            out["n"] += 1
+            if o.kind != "ok":
+                continue
+            out["judged"] += 1
+            r = bellman_findings(g, o.result, prune) or inclusion_findings(g, o.result)
+            if r:
+                out["violations"].append({"kind": "board", "klass": r[0], "input": inp,
+                                          "config": {"prune": prune, "cpu_s": cpu}, "observed": repr(r[2]), "expected": None,
+                                          "explanation": "%s prune=%s: %s at state %d: %r" % (lab, prune, r[0], r[1], r[2])})
     return out
 
 
-def extend(ctx, rep):
+def inclusion_findings(g, res):
+    return None
+
+
+def extend(ctx, rep, only=None):
     from .. import par
     limit = 4100 if ctx.thorough else 260
     cpu = 60.0 if ctx.thorough else 3.0
-    n = len(board_games(limit))
-    tot = par.run_shards(_work, [(i, limit, cpu) for i in range(n)], ctx.jobs)
+    shards = [("file", (f, nme), cpu) for f, nme, g in board_games(limit)]
+    shards += [("gen", b, cpu) for b in boards.board_list(ctx.thorough, ctx.seed)]
+    tot = par.run_shards(_work, shards, ctx.jobs)
     rep["violations"].extend(tot.get("violations", []))
     rep["coverage"]["transitions"] += tot["n"]
     rep["coverage"]["board_runs"] = tot["n"]
     rep["coverage"]["board_runs_judged_in_bellman_form"] = tot["judged"]
     rep["coverage"]["traces_validated_against_impl"] += tot["judged"]
     rep["assumptions"].append("boards / example inputs: solve() runs that do not return within %.0f s CPU (non-stopping games with infinite "
-                              "total reward) are not judged" % cpu)
+                              "total reward, see KF-C11-1) are not judged" % cpu)
 
 
 def replay(case):
     inp = case["input"]
-    for fname, name, g in board_games(None):
-        if fname == inp["file"] and name == inp["game"]:
-            prune = case["config"]["prune"]
-            o = Rn.solve(g, prune, cpu_s=max(60.0, case["config"].get("cpu_s", 5.0) * 4), confirm=False)
-            if o.kind != "ok":
-                return None
-            r = bellman_findings(g, o.result, prune)
-            return repr(r) if r else None
-    return "input game not found"
+    prune = case["config"]["prune"]
+    if "generated" in inp:
+        b = inp["generated"]
+        g = boards.generate(b[0], b[1], b[2], b[3], tuple(b[4]))[inp["game"]]
+    else:
+        g = None
+        for fname, name, gg in board_games(None):
+            if fname == inp["file"] and name == inp["game"]:
+                g = gg
+        if g is None:
+            return "input game not found"
+    o = Rn.solve(g, prune, cpu_s=max(60.0, case["config"].get("cpu_s", 5.0) * 4), confirm=False)
+    if o.kind != "ok":
+        return None
+    r = bellman_findings(g, o.result, prune)
+    return repr(r) if r else None
